@@ -119,10 +119,10 @@ func NewMuxer(ctx context.Context, w io.Writer, opts ...func(*Muxer)) *Muxer {
 // if es.ElementaryPID is zero, it will be generated automatically
 func (m *Muxer) AddElementaryStream(es PMTElementaryStream) error {
 	if es.ElementaryPID != 0 {
-		for _, oes := range m.pmt.ElementaryStreams {
-			if oes.ElementaryPID == es.ElementaryPID {
-				return ErrPIDAlreadyExists
-			}
+		// Same rule as for automatic PIDs: the PID can't be taken already, by another elementary stream or by the PMT,
+		// and has to be one of the 13 bit values below the null packets PID
+		if !m.isElementaryPIDAvailable(es.ElementaryPID) {
+			return ErrPIDAlreadyExists
 		}
 	} else {
 		// Automatic PIDs start at startPID and skip the PIDs that can't be used for an elementary stream: the ones
